@@ -107,5 +107,73 @@ Proof.
       * intros i Hi Hne. destruct (pos_decomp p i Hp Hi) as (k & Hk & ->). rewrite (disc_at h p f s0 k C Hk).
         destruct (Nat.eqb_spec f 0); [lia|]. destruct (Nat.eqb_spec f N_); [lia|]. apply Nat.eqb_neq. intros ->. apply Hne. reflexivity.
 Qed.
+
+(* find_oldest_slot on a consistent ring: the slot to overwrite is the first blank position after the newest slot
+   (the oldest image when the ring is full, slot 0 when it is blank) and the sequence number is the successor of the newest *)
+Lemma last_some_last (g : nat -> option N) k s : g k = Some s -> last_some g (S k) = Some s.
+Proof. intros H. cbn [last_some]. now rewrite H. Qed.
+
+Theorem find_oldest_spec h p f s0 : consistent h p f s0 ->
+  find_oldest h =
+    (if Nat.eqb f 0 then 0%nat else if Nat.eqb f N_ then p else ((p + f) mod N_)%nat,
+     if Nat.eqb f 0 then 0%N else next_seq (iter_next (f - 1) s0)).
+Proof.
+  intros C. pose proof C as (Hp & Hf & H). unfold find_oldest, ordered. rewrite (oldest_index_spec h p f s0 C).
+  destruct (Nat.eqb_spec f 0) as [Hf0|Hf0].
+  - f_equal. match goal with |- match last_some ?g N_ with _ => _ end = _ => set (g0 := g) end.
+    assert (G : forall k, (k <= N_)%nat -> last_some g0 k = None).
+    { induction k as [|k IH]; intros Hk; [reflexivity|]. cbn [last_some]. unfold g0 at 1.
+      destruct (pos_decomp p k Hp ltac:(lia)) as (j & Hj & ->). rewrite (H j Hj). subst f. cbn. apply IH. lia. }
+    rewrite (G N_ (le_n _)). reflexivity.
+  - f_equal. destruct N_ as [|n'] eqn:EN; [lia|].
+    destruct (Nat.eqb_spec f (S n')) as [HfN|HfN].
+    + erewrite last_some_last; [reflexivity|]. rewrite (H n' ltac:(lia)). destruct (Nat.ltb_spec n' f); [|lia]. f_equal. f_equal. lia.
+    + erewrite last_some_last; [reflexivity|].
+      replace (((p + f) mod S n' + n') mod S n')%nat with ((p + (f - 1)) mod S n')%nat.
+      * rewrite (H (f - 1)%nat ltac:(lia)). destruct (Nat.ltb_spec (f - 1) f); [reflexivity| lia].
+      * rewrite Nat.add_mod_idemp_l by lia. replace (p + f + n')%nat with (p + (f - 1) + 1 * S n')%nat by lia. now rewrite Nat.mod_add by lia.
+Qed.
 End Ring.
-Check oldest_index_spec.
+
+(* the side condition [no_cycle] holds for every ring that fits in memory: along a run, next_seq is +1 modulo 2^32 - 1 *)
+Lemma next_seq_mod s : (s < 4294967295)%N -> next_seq s = ((s + 1) mod 4294967295)%N.
+Proof.
+  intros H. unfold next_seq. rewrite (N.mod_small (s + 1) 4294967296) by lia.
+  destruct (N.eqb_spec (s + 1) 4294967295) as [E|E].
+  - rewrite E. now rewrite N.mod_same.
+  - symmetry. apply N.mod_small. lia.
+Qed.
+Lemma next_seq_lt s : (next_seq s < 4294967295)%N.
+Proof.
+  unfold next_seq. destruct (N.eqb_spec ((s + 1) mod 4294967296) 4294967295); [lia|].
+  pose proof (N.mod_lt (s + 1) 4294967296 ltac:(lia)). lia.
+Qed.
+Lemma iter_next_mod k s : (s < 4294967295)%N -> iter_next k s = ((s + N.of_nat k) mod 4294967295)%N.
+Proof.
+  intros H. induction k as [|k IH]; cbn [iter_next].
+  - rewrite N.add_0_r. symmetry. apply N.mod_small. exact H.
+  - rewrite IH. rewrite next_seq_mod by (apply N.mod_lt; lia).
+    rewrite N.add_mod_idemp_l by lia. f_equal. lia.
+Qed.
+Theorem no_cycle_holds s k : (s < 4294967295)%N -> (0 < k)%nat -> (N.of_nat k < 4294967295)%N -> iter_next k s <> s.
+Proof.
+  intros Hs Hk Hb E. rewrite iter_next_mod in E by exact Hs.
+  assert (Q : ((s + N.of_nat k) mod 4294967295 = s mod 4294967295)%N) by (rewrite E; symmetry; apply N.mod_small; exact Hs).
+  destruct (N.ltb_spec (s + N.of_nat k) 4294967295).
+  - rewrite N.mod_small in E by lia. lia.
+  - assert (Hd : ((s + N.of_nat k) = (s + N.of_nat k - 4294967295) + 1 * 4294967295)%N) by lia.
+    rewrite Hd, N.mod_add in E by lia. rewrite N.mod_small in E by lia. lia.
+Qed.
+Theorem no_cycle_all N_ : (N.of_nat N_ < 4294967295)%N -> forall s k, (0 < k <= N_)%nat -> iter_next k s <> s.
+Proof.
+  intros HN s k Hk. destruct (N.ltb_spec s 4294967295) as [Hs|Hs].
+  - apply no_cycle_holds; [exact Hs| lia| lia].
+  - destruct k as [|k]; [lia|]. cbn [iter_next]. pose proof (next_seq_lt (iter_next k s)). lia.
+Qed.
+
+(* C20, ring placement, without side condition: for every slot count 2 <= N < 2^32 - 1 *)
+Theorem ring_find_oldest N_ h p f s0 : (2 <= N_)%nat -> (N.of_nat N_ < 4294967295)%N -> consistent N_ h p f s0 ->
+  find_oldest N_ h =
+    (if Nat.eqb f 0 then 0%nat else if Nat.eqb f N_ then p else ((p + f) mod N_)%nat,
+     if Nat.eqb f 0 then 0%N else next_seq (iter_next (f - 1) s0)).
+Proof. intros H2 HN C. apply (find_oldest_spec N_ H2 (no_cycle_all N_ HN) h p f s0 C). Qed.
